@@ -19,6 +19,7 @@ LineOK(e) ==
       /\ (ShapeEq(A, Bn) \/ Reject(l, "shape"))
       /\ (RenderEq(A, Bn) \/ Reject(l, "render"))
       /\ (~ShapeEq(A, Bn) \/
+          /\ (CommentEq(e.in, e.out) \/ Reject(l, "comment"))
           /\ (TextEq(A, Bn) \/ Reject(l, "text"))
           /\ (AttrEq(A, Bn) \/ Reject(l, "attr"))))
 Conforms == l <= N => LineOK(Trace[l])
